@@ -88,9 +88,9 @@ CLAIMED = {
     "C08": dict(
         text="Receive entry point modelled as the guard of EZSP.frame_received around the C07 codec model (header parse, table lookup, payload decode) and the C06 command-layer model. Theorems: classification of any byte string is total (empty / short / unknown ID / undecodable / decodes); malformed input changes no state, completes no call and invokes no callback; "
         "a call is completed with a payload only by bytes whose header carries its own sequence number and frame ID (invariant of C06 for every reachable state); a callback is invoked only for bytes that parse, name a frame of the active table and decode against its schema; from any reachable state with the slot free a fresh call followed by its matching reply returns that reply. "
-        "Tie: generated command tables (incl. the EmberKeyStruct receive-side padding quirk, lowered after probing) + the real EZSP.frame_received for every version 4..14 with a pending command of the same / another frame ID / an already finished one / none, on valid frames truncated at every length and mutated by bit flips, ID and sequence substitution, appended bytes, random strings; then a fresh command. Source-level: ProtocolHandler.__call__ is translated from the syntax tree on every run (BV/Gen/SrcProto.lean) over the generated header parsers of EZSPv4/v5/v8 and the codec model of the payload decoder; BV/Proofs/Src/Proto.lean says what it does for every byte string by the model classification (short / unknown ID / undecodable / callback / reply / wrong ID / dead call / invalid-command answer); c08_src_malformed_contained, c08_src_no_wrong_completion and c08_src_callback_only_if_decodes are the clauses over the generated definition.",
+        "Tie: generated command tables (incl. the EmberKeyStruct receive-side padding quirk, lowered after probing) + the real EZSP.frame_received for every version 4..14 with a pending command of the same / another frame ID / an already finished one / none, on valid frames truncated at every length and mutated by bit flips, ID and sequence substitution, appended bytes, random strings; then a fresh command. Source-level: ProtocolHandler.__call__ is translated from the syntax tree on every run (BV/Gen/SrcProto.lean) over the generated header parsers of EZSPv4/v5/v8 and the codec model of the payload decoder; BV/Proofs/Src/Proto.lean says what it does for every byte string by the model classification (short / unknown ID / undecodable / callback / reply / wrong ID / dead call / invalid-command answer); c08_src_malformed_contained, c08_src_no_wrong_completion and c08_src_callback_only_if_decodes are the clauses over the generated definition. The guard itself, EZSP.frame_received, is translated too (BV/Gen/SrcEzspRx.lean): c08_src_guard_contains - for every byte string it returns normally, the frame ignored or the handler's effects kept and its exception swallowed.",
         ref="6 C08",
-        technique="Lean 4 proof (case analysis over the classification, reuse of the C06 invariant) + differential vs real frame_received on mutated frames, all versions; source-level translation of ProtocolHandler.__call__ with the clauses proved over the generated definition",
+        technique="Lean 4 proof (case analysis over the classification, reuse of the C06 invariant) + differential vs real frame_received on mutated frames, all versions; source-level translation of ProtocolHandler.__call__ and EZSP.frame_received with the clauses proved over the generated definitions",
         note="Exceptions swallowed by the guard are not observable from outside; the model's internal `rxRaised` marker is compared only through its effects (state, completions, callbacks). ",
     ),
     "C09": dict(
